@@ -410,6 +410,9 @@ class Exprs:
             return VBuiltin("gfold:" + name)
         if name in self.BUILTIN_NAMES:
             return VBuiltin(name)
+        if fr.in_spec:
+            # a local that is not bound on this path (the spec guards its use): an undefined value
+            return VOpaque("undefined.name." + name)
         raise Unsupported(f"unknown name {name} (line {getattr(node, 'lineno', '?')})")
 
     def binding_value(self, r: Tuple[str, Any], name: str) -> V:
